@@ -487,6 +487,34 @@ class Builtins(Methods):
                 for a in accs[1:]:
                     n = z3.If(a[0] < n, a[0], n)
                 return (n, lambda k: Tup(tuple(a[1](k) for a in accs)), ("tuple",) + tuple(a[2] for a in accs))
+            if v.kind == "chain":
+                accs = [self.seq_access(st, a) for a in v.args]
+                if any(a is None for a in accs):
+                    return None
+                accs = [a for a in accs if a[2] is not None]
+                if not accs:
+                    return (z3.IntVal(0), lambda k: None, None)
+                if len({str(a[2]) for a in accs}) != 1 or not all(isinstance(a[1](z3.IntVal(0)), SV) for a in accs):
+                    return None
+                et = accs[0][2]
+
+                def el(k, accs=accs):
+                    off = z3.IntVal(0)
+                    term = None
+                    # nested If over the parts, last part as default
+                    offs = []
+                    for a in accs:
+                        offs.append(off)
+                        off = off + a[0]
+                    term = accs[-1][1](k - offs[-1]).term
+                    for a, o in reversed(list(zip(accs[:-1], offs[:-1]))):
+                        term = z3.If(k < o + a[0], a[1](k - o).term, term)
+                    return SV(term, et)
+
+                total = z3.IntVal(0)
+                for a in accs:
+                    total = total + a[0]
+                return (total, el, et)
             if v.kind == "range":
                 lo, hi = v.args
                 lo_t = ex.to_term(st, lo, "int")
@@ -597,7 +625,14 @@ class Builtins(Methods):
         ex = self.ex
         d = st.heap[dref.id]
         if d.sym is not None:
-            raise Unsupported("symbolic dict lookup")
+            key_ty, elem_ty, arr = d.sym
+            kt = ex.to_term(st, key, key_ty)
+            bucket = SetObj(sv=SV(z3.Select(arr, kt), ("set", elem_ty)), parent=(dref.id, key))
+            return [(st, st.alloc(bucket))]
+        if d.default_factory == "set" and not d.items and isinstance(key, SV) and raise_missing and not (z3.is_const(key.term) and key.term.decl().kind() == z3.Z3_OP_DT_CONSTRUCTOR):
+            # first access of an empty defaultdict(set) with a symbolic key: the bucket is a view that turns the
+            # dict into a symbolic map (key -> set) on its first mutation
+            return [(st, st.alloc(SetObj(items=(), parent=(dref.id, key))))]
         out = []
         rest = st
         # if key concrete-equal to one entry: direct
